@@ -136,3 +136,76 @@ REG.lemma('C20.release-keeps-others',
              'forall(lambda k, l: implies(0 <= k < len(mine) and 0 <= l < len(other), mine[k] != other[l]))'],
     goals = [('others-still-held', 'named_cells(r1, r1, other, 1, 1)')],
     serves = ['C20'])
+
+
+# ------------------------------------------------------------------------------
+# Master._result_cb: exit code -> target state, every result handed on once
+#
+import z3 as _z3
+from pyvc import core as _C
+from pyvc.core import Val as _Val, coerce as _coerce, fresh as _fresh
+
+MTask = T.Rec('MTask', uid=T.Str, target_state=OStr, exit_code=T.Opt(T.Int))
+REG.optional_keys['MTask'] = {'target_state', 'exit_code'}
+MTaskL = T.List(MTask)
+MAdv = T.Rec('MAdv', uid=T.Str, state=OStr, target_state=OStr)
+
+
+def _m_advance(ex, node, st):
+    things = ex.ev(node.args[0], st)
+    state  = ex.ev(node.args[1], st)
+    log = ex.get_var(st, 'adv_log')
+    lty = log.ty
+    n = things.ty.len(things.term)
+    i = _z3.Int(_C.fresh_name('i'))
+    out = ex.fresh_wf(st, lty, 'adv_log')
+    l0 = lty.len(log.term)
+    st.assume(lty.len(out.term) == l0 + n)
+    st.assume(_z3.ForAll([i], _z3.Implies(_z3.And(0 <= i, i < l0),
+              _z3.Select(lty.arr(out.term), i) == _z3.Select(lty.arr(log.term), i))))
+    e2 = _z3.Select(things.ty.arr(things.term), i - l0)
+    st.assume(_z3.ForAll([i], _z3.Implies(_z3.And(l0 <= i, i < l0 + n),
+              _z3.Select(lty.arr(out.term), i) == MAdv.mk(things.ty.elem.get(e2, 'uid'),
+                  _coerce(state, OStr).term, things.ty.elem.get(e2, 'target_state'))),
+              patterns=[_z3.Select(lty.arr(out.term), i)]))
+    st.env['adv_log'] = out
+    return _C.NONE
+_m_advance.mutates = ('adv_log',)
+
+
+def _user_result_cb(ex, node, st):
+    """the user supplied result callback: may raise anything"""
+    for a in node.args: ex.ev(a, st)
+    e = st.fork(); e.guards = []
+    ex.exits.append(('Exception', e, ex.cur_line))
+    return _C.NONE
+_user_result_cb.mutates = ()
+
+REG.define('state_of_exit(t)',
+    'ite(bool(t.target_state), val(t.target_state), ite(t.exit_code == 0, DONE, FAILED))')
+
+REG.spec('raptor/master.py:Master._result_cb',
+    params   = dict(tasks=MTaskL),
+    self     = dict(_task_service_data=T.Map(T.Str, T.List(T.Any))),
+    ghost    = dict(adv_log=T.List(MAdv)),
+    calls    = {'self.result_cb': _user_result_cb},
+    effects  = {'self.advance': _m_advance},
+    modifies = ['tasks', 'self._task_service_data', 'adv_log'],
+    raises   = {},
+    no_raise_is_property = True,
+    ensures  = [
+      ('done-iff-exit-code-zero',
+       'forall(lambda i: implies(0 <= i < len(tasks), tasks[i].uid == old(tasks)[i].uid and '
+       'tasks[i].target_state == state_of_exit(old(tasks)[i])))'),
+      ('every-result-handed-on-exactly-once-even-if-the-callback-raises',
+       'len(adv_log) == len(old(adv_log)) + len(tasks) and forall(lambda i: implies(0 <= i < len(tasks), '
+       'adv_log[len(old(adv_log)) + i].uid == tasks[i].uid and '
+       'adv_log[len(old(adv_log)) + i].state == rps.AGENT_STAGING_OUTPUT_PENDING and '
+       'adv_log[len(old(adv_log)) + i].target_state == tasks[i].target_state))'),
+    ],
+    loops = {'1': ['len(tasks) == len(old(tasks))', 'adv_log == old(adv_log)',
+                   'forall(lambda i: implies(i_task <= i < len(tasks), tasks[i] == old(tasks)[i]))',
+                   'forall(lambda i: implies(0 <= i < i_task, tasks[i].uid == old(tasks)[i].uid and '
+                   'tasks[i].target_state == state_of_exit(old(tasks)[i])))']},
+    opts   = dict(merge='scalars'),
+    serves = ['C05', 'C20'])
